@@ -247,3 +247,117 @@ example : PathsAvoid exSchema exRoot [[98]] [([97], [55])] := by
   simp at hkv
   subst hkv
   exact ⟨[[97]], [exFa], by decide, by decide, by decide⟩
+
+/-! ## text forms -/
+
+/-- integers: accepted text is an optional sign followed by decimal digits only, and the value is within
+    the field's range (no wrap-around, no clamping) -/
+theorem C04_int_text (s : Bytes) (bits : Nat) (i : Int) (h : parseInt s bits = some i) :
+    -((2 ^ (bits - 1) : Nat) : Int) ≤ i ∧ i < ((2 ^ (bits - 1) : Nat) : Int)
+    ∧ ∃ c rest, s = c :: rest ∧ (if c == 43 || c == 45 then rest else s).all isDigit = true := by
+  cases s with
+  | nil => simp [parseInt] at h
+  | cons c rest =>
+    rw [parseInt_cons] at h
+    have hCpos : 0 < 2 ^ (bits - 1) := Nat.pow_pos (by decide)
+    generalize 2 ^ (bits - 1) = C at h hCpos ⊢
+    cases hd : parseDigits (if c == 43 || c == 45 then rest else c :: rest) with
+    | none => simp only [hd] at h; simp at h
+    | some n =>
+      simp only [hd] at h
+      refine ⟨?_, ?_, c, rest, rfl, (parseDigits_some hd).2⟩
+      · cases hb : (c == 45) <;> simp only [hb] at h
+        · by_cases hge : n ≥ C <;> simp [hge] at h <;> omega
+        · by_cases hgt : n > C <;> simp [hgt] at h <;> omega
+      · cases hb : (c == 45) <;> simp only [hb] at h
+        · by_cases hge : n ≥ C <;> simp [hge] at h <;> omega
+        · by_cases hgt : n > C <;> simp [hgt] at h <;> omega
+
+theorem C04_uint_text (s : Bytes) (bits n : Nat) (h : parseUint s bits = some n) :
+    n < 2 ^ bits ∧ s ≠ [] ∧ s.all isDigit = true := by
+  unfold parseUint at h
+  cases hd : parseDigits s with
+  | none => simp [hd] at h
+  | some n' =>
+    simp only [hd] at h
+    by_cases hlt : n' < 2 ^ bits
+    · simp [hlt] at h; subst h
+      exact ⟨hlt, parseDigits_some hd⟩
+    · simp [hlt] at h
+
+/-- enums: an accepted text denotes a value of the field's own enum — its name, or the decimal number of
+    one of its values (read as Go `int` and converted to int32 like the code does) -/
+theorem C04_enum_text (sch : Schema) (orc : Oracle) (ref : Name) (text : Bytes) (n : Int)
+    (h : parseScalar sch orc (.enum ref) text = .ok (.int n)) :
+    ∃ e, sch.findEnum ref = some e ∧
+      ((text, n) ∈ e.values ∨ (∃ i name, parseInt text 64 = some i ∧ n = wrapInt32 i ∧ (name, n) ∈ e.values)) := by
+  simp only [parseScalar] at h
+  split at h
+  · simp at h
+  · rename_i e he
+    refine ⟨e, he, ?_⟩
+    split at h
+    · rename_i nv hnv
+      simp at h
+      have hm := List.mem_of_find?_eq_some hnv
+      have hp := List.find?_some hnv
+      simp at hp
+      left
+      rw [← hp, ← h]
+      exact hm
+    · split at h
+      · simp at h
+      · rename_i i hi
+        try simp only at h
+        split at h
+        · rename_i hany
+          simp at h
+          simp only [List.any_eq_true, beq_iff_eq] at hany
+          obtain ⟨⟨name, num⟩, hmem, hnum⟩ := hany
+          right
+          refine ⟨i, name, hi, h.symm, ?_⟩
+          simp at hnum
+          rw [← h, ← hnum]
+          exact hmem
+        · simp at h
+
+/-- bool: exactly the twelve spellings of strconv.ParseBool -/
+theorem C04_bool_text (s : Bytes) (b : Bool) (h : parseBool s = some b) :
+    s ∈ ([[49], [116], [84], [84, 82, 85, 69], [116, 114, 117, 101], [84, 114, 117, 101],
+          [48], [102], [70], [70, 65, 76, 83, 69], [102, 97, 108, 115, 101], [70, 97, 108, 115, 101]] : List Bytes) := by
+  by_cases h1 : s = [49]
+  · simp [h1]
+  by_cases h2 : s = [116]
+  · simp [h2]
+  by_cases h3 : s = [84]
+  · simp [h3]
+  by_cases h4 : s = [84, 82, 85, 69]
+  · simp [h4]
+  by_cases h5 : s = [116, 114, 117, 101]
+  · simp [h5]
+  by_cases h6 : s = [84, 114, 117, 101]
+  · simp [h6]
+  by_cases h7 : s = [48]
+  · simp [h7]
+  by_cases h8 : s = [102]
+  · simp [h8]
+  by_cases h9 : s = [70]
+  · simp [h9]
+  by_cases h10 : s = [70, 65, 76, 83, 69]
+  · simp [h10]
+  by_cases h11 : s = [102, 97, 108, 115, 101]
+  · simp [h11]
+  by_cases h12 : s = [70, 97, 108, 115, 101]
+  · simp [h12]
+  exfalso
+  simp [parseBool, h1, h2, h3, h4, h5, h6, h7, h8, h9, h10, h11, h12] at h
+
+/-- base64 witnesses: both alphabets, padding required, newlines ignored, trailing bits not checked -/
+example : parseBytes [65, 81, 73, 68] = some [1, 2, 3]                       -- "AQID"
+    ∧ parseBytes [45, 95, 56, 61] = some [251, 255]                           -- "-_8=" (URL alphabet)
+    ∧ parseBytes [43, 47, 56, 61] = some [251, 255]                           -- "+/8=" (standard alphabet)
+    ∧ parseBytes [65, 81, 10, 61, 61] = some [1]                              -- "AQ\n=="
+    ∧ parseBytes [65, 81] = none                                              -- "AQ" (padding missing)
+    ∧ parseBytes [65, 82, 61, 61] = some [1]                                  -- "AR==" (non-zero trailing bits)
+    ∧ parseBytes [] = some [] := by
+  decide
